@@ -13,7 +13,8 @@ import dtls_common as dc
 import vlib
 
 PID = "C11"
-ALL_KINDS = ["drop", "dup", "hold1", "hold2", "split2", "split3"]
+ALL_KINDS = ["drop", "dup", "hold1", "hold2", "split2", "split3", "splitov"]
+FRAG_KINDS = ["split2", "split3", "splitov", "dup", "hold1", "drop"]
 INV = ["KeyAgree", "AppReadable"]
 
 # Trace rules whose violation contradicts C11 itself (agreement on keys, Connected only after a verified
@@ -136,6 +137,16 @@ def run(tier):
              deadline=True, invariants=INV)
     rows = vlib.read_ndjson(s1)
     singles = dc.scenarios_from_sched(rows, TICK_MS, DEADLINE_MS)
+    # Re-fragmentation family (both tiers, exhaustive): a message cut in two, in three, or into two overlapping
+    # pieces, and then one of the pieces duplicated, overtaken or lost - every such pair on first transmissions is
+    # model-checked and executed (reassembly must cope with repeats, overlaps and any order).
+    sf = os.path.join(d, "sched_frag.ndjson")
+    rf = _run_tlc(ck, "pinned_frag_b2_gen", spec="FairSpec", deviations=dc.OPEN_DEVIATIONS, net_kinds=FRAG_KINDS,
+                  net_budget=2, max_ord=1, invariants=INV, properties=["Converge"], emit="EmitSched",
+                  tags=("SCHED",), sinks={"SCHED": sf}, workers=1, timeout=900)
+    frag = [x for x in dc.scenarios_from_sched(vlib.read_ndjson(sf), TICK_MS, DEADLINE_MS, always_empty=False)
+            if len(x["tlc_ops"]) == 2 and x["tlc_ops"][0]["kind"] == "split" and "#" in x["tlc_ops"][1]["msg"]]
+    os.remove(sf)
     pairs = []
     exhaustive_pairs = False
     if thorough:
@@ -201,8 +212,10 @@ def run(tier):
     # Losing or delaying a *fragment on its way to the reference* exercises only the reference's reassembly, which
     # cannot recover from it: it chains fragments by exact adjacency and stays stuck on the first piece even when the
     # complete retransmitted message arrives (rustrtc does retransmit it, with fresh record numbers). Not run.
+    #   Nor can it put overlapping fragments together (same adjacency chaining).
     def frag_to_ref_lost(x, to_ref):
-        return any(o["dir"] == to_ref and "#" in o["msg"] and o["kind"] in ("drop", "hold") for o in x["tlc_ops"])
+        return any(o["dir"] == to_ref and (("#" in o["msg"] and o["kind"] in ("drop", "hold", "dup"))
+                                           or (o["kind"] == "split" and o["k"] == 20)) for o in x["tlc_ops"])
     n_ref_excluded = sum(1 for x in ref_s if ref_final_lost(x) or frag_to_ref_lost(x, "C>S")) + \
         sum(1 for x in ref_c if frag_to_ref_lost(x, "S>C"))
     ref_s = [x for x in ref_s if not ref_final_lost(x) and not frag_to_ref_lost(x, "C>S")]
@@ -213,7 +226,9 @@ def run(tier):
     ref_c = [dict(x, repack=(i % 2 == 1)) for i, x in enumerate(ref_c)]
     ref_ids = {x["id"] for x in ref_s + ref_c}
 
-    scenarios = singles + pairs + ref_s + ref_c
+    have = {x["id"] for x in singles + pairs}
+    frag = [x for x in frag if x["id"] not in have]
+    scenarios = singles + pairs + frag + ref_s + ref_c
     outcomes = dc.run_scenarios(ck, scenarios, tier, nproc=8 if not thorough else 12,
                                 timeout=600 if not thorough else 3000)
     unfired = 0
@@ -263,6 +278,7 @@ def run(tier):
             ck.divergence({"sub": "dtls", "rule": rj["rule"], "ev": rj["event"]["ev"], "inst": rj["event"].get("inst")}, rec)
 
     rejections = rejections + ref_rejections
+    dc.finish_validation(ck)
     ck.cov["traces_validated_against_impl"] = len(outcomes) + accepted
     ck.cov["evaluations"] = len(outcomes)
     ck.cov["distinct_nontrivial"] = len({json.dumps([(op["dir"], op["msg"], op["ord"], op["kind"], op.get("arg")) for op in o["ops"] if op["fired"]])
@@ -274,7 +290,8 @@ def run(tier):
     ck.cov["exhaustive"] = bool(r1["finished"]) and (not thorough or exhaustive_pairs)
     ck.cov["samples"] = [{"ops": o["scenario"].get("tlc_ops"), "final": o["obs"]["final"],
                           "t_connected_ms": o["obs"]["t_connected_ms"]} for o in outcomes[:6] if "panic" not in o]
-    ck.notes.append(f"schedules: {len(singles)} single-fault (all TLC found, MaxOrd 2) + {len(pairs)} multi-fault; "
+    ck.notes.append(f"schedules: {len(singles)} single-fault (all TLC found, MaxOrd 2) + {len(pairs)} multi-fault + {len(frag)} "
+                    f"split-then-fault-on-a-fragment pairs (all of them, {rf['distinct']} states); "
                     f"ops that did not fire in the real run: {unfired}; trace validation: {accepted} accepted, "
                     f"{len(rejections)} rejected")
     ck.notes.append(f"rustrtc<->reference (webrtc-rs dtls 0.17.2) pairs: {len(ref_s)} schedules with the reference as server "
